@@ -239,8 +239,14 @@ class Type3Tag(nfc.tag.Tag):
             attributes['ln'] = len(data)  # because we may need to pad zeros
             data = data + bytearray(-len(data) % 16)  # adjust to block size
 
-            for i in range(1, last_block_number, attributes['nbw']):
-                last_block = min(i + attributes['nbw'], last_block_number)
+            # A command frame can not be longer than 255 byte, this allows
+            # to write at most 13 blocks with 2-byte block list elements
+            # or 12 blocks if block numbers above 255 are to be written.
+            max_nbw = 13 if last_block_number <= 256 else 12
+            nbw = min(attributes['nbw'], max_nbw)
+
+            for i in range(1, last_block_number, nbw):
+                last_block = min(i + nbw, last_block_number)
                 block_data = data[(i-1)*16:(last_block-1)*16]
                 self._tag.write_to_ndef_service(
                     block_data, *range(i, last_block))
